@@ -13,45 +13,50 @@ def reg(prop):
 
 @reg('C01')
 def c01(tier):
-    return V.generic_pbt('C01', tier, n_quick=30000, n_thorough=1000000, floor=100,
+    return V.generic_pbt('C01', tier, n_quick=60000, n_thorough=1000000, floor=100,
                          assumptions=['frames are complete (declared shape) when saved; strings printable ASCII; names unique modulo case',
                                       'channel identity is positional (README submits unnamed channels)'])
 
 API_ASSUME = ['points and channels are declared by name before frames are added (README); frames carry the declared shape or a documented deviation',
               'frames are only added to objects that declare at least one point or channel (adding empty frames to an empty object is undocumented)',
               'strings printable ASCII; names unique modulo case']
+# C06, C07, C08 also add frames to objects without declarations (the stored-frame-list and accept/refuse oracles do not depend on them)
+API_ASSUME_UNDECL = [API_ASSUME[0], 'frames are also added to objects that declare nothing (the oracle of this property does not depend on declarations)',
+                     'strings printable ASCII with occasional control whitespace; names unique modulo case']
+# C09, C10: names may be case variants of each other and longer than a file can hold; such objects are not saved by the script
+API_ASSUME_NAMES = API_ASSUME[:2] + ['strings printable ASCII with occasional control whitespace; group / parameter names may differ only by letter case or exceed 127 characters (descriptions 255): legal in memory, such objects are never saved by the script']
 
 @reg('C05')
 def c05(tier):
-    return V.generic_pbt('C05', tier, n_quick=30000, n_thorough=1000000, floor=100, assumptions=API_ASSUME)
+    return V.generic_pbt('C05', tier, n_quick=80000, n_thorough=1000000, floor=100, assumptions=API_ASSUME)
 
 @reg('C06')
 def c06(tier):
-    return V.generic_pbt('C06', tier, n_quick=30000, n_thorough=1000000, floor=100, assumptions=API_ASSUME)
+    return V.generic_pbt('C06', tier, n_quick=80000, n_thorough=1000000, floor=100, assumptions=API_ASSUME_UNDECL)
 
 @reg('C08')
 def c08(tier):
-    return V.generic_pbt('C08', tier, n_quick=30000, n_thorough=400000, floor=100, assumptions=API_ASSUME +
+    return V.generic_pbt('C08', tier, n_quick=80000, n_thorough=400000, floor=100, assumptions=API_ASSUME_UNDECL +
                          ['only caller-owned objects are mutated (copies of stored frames obtained through accessors are shallow by design)'])
 
 @reg('C10')
 def c10(tier):
-    return V.generic_pbt('C10', tier, n_quick=30000, n_thorough=1000000, floor=100, assumptions=API_ASSUME)
+    return V.generic_pbt('C10', tier, n_quick=80000, n_thorough=1000000, floor=100, assumptions=API_ASSUME_NAMES)
 
 @reg('C07')
 def c07(tier):
-    return V.generic_pbt('C07', tier, n_quick=40000, n_thorough=1000000, floor=100, assumptions=API_ASSUME +
+    return V.generic_pbt('C07', tier, n_quick=80000, n_thorough=1000000, floor=100, assumptions=API_ASSUME_UNDECL +
                          ['deviations the documentation does not mention (sub-frame count, undeclared columns, duplicated names inside one frame) may be accepted or refused; the history ends there'])
 
 @reg('C09')
 def c09(tier):
-    return V.generic_pbt('C09', tier, n_quick=40000, n_thorough=1000000, floor=100, assumptions=API_ASSUME +
+    return V.generic_pbt('C09', tier, n_quick=80000, n_thorough=1000000, floor=100, assumptions=API_ASSUME_NAMES +
                          ['mandatory POINT/ANALOG parameters are only touched by the documented declaration calls; custom parameter names never collide with them',
                           'arrays are capped at 3000 elements (600 strings): larger shapes are exercised only as refused calls'])
 
 @reg('C11')
 def c11(tier):
-    return V.generic_pbt('C11', tier, n_quick=25000, n_thorough=600000, floor=100, assumptions=API_ASSUME +
+    return V.generic_pbt('C11', tier, n_quick=60000, n_thorough=600000, floor=100, assumptions=API_ASSUME +
                          ['name look-up is exact and case-sensitive (a padded query is a different name); expected results come from a list model built from the positional accessors'])
 
 FILE_ASSUME = ['files are little-endian, float format, header consistent with POINT/ANALOG parameters, POINT and ANALOG groups present',
@@ -60,12 +65,12 @@ FILE_ASSUME = ['files are little-endian, float format, header consistent with PO
 
 @reg('C02')
 def c02(tier):
-    return V.generic_pbt('C02', tier, n_quick=20000, n_thorough=400000, floor=100, assumptions=FILE_ASSUME,
+    return V.generic_pbt('C02', tier, n_quick=40000, n_thorough=400000, floor=100, assumptions=FILE_ASSUME,
                          fuzz=[{'target': 'fuzz_c02', 'seeds': [], 'budget': (10, 300), 'jobs': (8, 16), 'max_len': 600}])
 
 @reg('C04')
 def c04(tier):
-    return V.generic_pbt('C04', tier, n_quick=8000, n_thorough=200000, floor=100, assumptions=FILE_ASSUME +
+    return V.generic_pbt('C04', tier, n_quick=16000, n_thorough=200000, floor=100, assumptions=FILE_ASSUME +
                          ['3 generations (quick) / 4 (thorough); the three vendor files of the test suite are fixed seeds'])
 
 def c03_sweep_cases(tier):
@@ -95,7 +100,7 @@ def c03(tier):
     import shutil
     d, paths = c03_sweep_cases(tier)
     try:
-        return V.generic_pbt('C03', tier, n_quick=20000, n_thorough=600000, floor=500, assumptions=API_ASSUME + FILE_ASSUME[:2], extra_cases=paths,
+        return V.generic_pbt('C03', tier, n_quick=40000, n_thorough=600000, floor=500, assumptions=API_ASSUME + FILE_ASSUME[:2], extra_cases=paths,
                              extra_cov={'residue_sweep': 'all 512 residues of (parameter-section length mod 512) enumerated x %d object shape(s)' % (3 if tier == 'thorough' else 1)})
     finally:
         shutil.rmtree(d, ignore_errors=True)
@@ -154,7 +159,7 @@ def c12(tier):
     import shutil
     d, paths = c12_cases(tier)
     try:
-        return V.generic_pbt('C12', tier, n_quick=6000, n_thorough=100000, floor=200, assumptions=FILE_ASSUME, extra_cases=paths,
+        return V.generic_pbt('C12', tier, n_quick=12000, n_thorough=100000, floor=200, assumptions=FILE_ASSUME, extra_cases=paths,
                              extra_cov={'exhaustive': True,
                                         'exhaustive_note': 'all 2^8 byte values and all 2^16 int16 values in parameters, 2 x 256 x 7 float patterns (sign x exponent x mantissa class) in float parameters, point coordinates+residuals, analog samples and event times are enumerated completely; header words are boundary-dense (quick) / exhaustive for gap, key-label and first-key-block words (thorough); the rapidcheck part adds random files with raw 32-bit float patterns',
                                         'enumerated_cases': len(paths)})
@@ -183,6 +188,19 @@ def c16_sweep_cases(tier):
                 with open(p, 'w') as f:
                     f.write('property: C16\n' + b + '%s %d %d\n' % (kind, a, a + step))
                 paths.append(p)
+    # dimension tables whose products overflow 16 / 32 / 64 bits (all dimension bytes of one record overwritten at once)
+    combos = [[128, 128, 128, 128, 64], [128, 128, 128, 128, 16], [128, 128, 128, 128, 32], [64] * 6, [128] * 7, [255] * 7, [255, 255, 255], [16] * 7,
+              [128, 128, 128, 128, 128, 2], [255, 255, 255, 255], [2, 128, 128, 128, 128, 64, 2], [0, 255, 255, 255, 255], [255, 255, 255, 255, 0], [255, 255, 255, 255, 255, 255, 0], [128, 128, 4], [255, 129, 2],
+              # products beyond 2^32 whose low 32 bits are a small non-zero number (16384, 31224, 18208, 18348)
+              [74, 128, 32, 218, 65], [65, 217, 40, 203, 225], [108, 75, 103, 88, 117], [225, 119, 61, 196, 161]]
+    for bi, b in enumerate(bases[:1] if tier == 'quick' else bases):
+        for k in range(10 if tier == 'thorough' else 6):
+            for ty in (0, 1, 2, 4, 255):
+                for ci, cb in enumerate(combos):
+                    p = os.path.join(d, 'b%d-dims-%d-%d-%d.case' % (bi, k, ty, ci))
+                    with open(p, 'w') as f:
+                        f.write('property: C16\n' + b + 'dims %d %d %d %s\nload\n' % (k, ty, len(cb), ' '.join(map(str, cb))))
+                    paths.append(p)
     return d, paths
 
 @reg('C16')
@@ -191,17 +209,17 @@ def c16(tier):
     d, paths = c16_sweep_cases(tier)
     try:
         seeds = ['property: C16\n' + b for b in C16_BASES]
-        return V.generic_pbt('C16', tier, n_quick=40000, n_thorough=1500000, floor=500, extra_cases=paths,
+        return V.generic_pbt('C16', tier, n_quick=80000, n_thorough=1500000, floor=500, extra_cases=paths,
                              fuzz=[{'target': 'fuzz_c16', 'seeds': seeds, 'budget': (12, 600), 'jobs': (8, 16), 'max_len': 8192}],
                              assumptions=['work bound: at most 64 x file size + 2^20 read calls (hook H1, deterministic, no wall clock); single allocations above 1 GiB abort under ASan',
                                           'inputs whose header/parameters declare frame data far beyond the file size (known finding KF-D17) are recognised through hook H2, skipped and counted'],
-                             extra_cov={'sweep_cases': len(paths), 'sweep': 'every truncation length and every offset x {0,1,0x7F,0x80,0xFF} of %d base files' % (3 if tier == 'thorough' else 2)})
+                             extra_cov={'sweep_cases': len(paths), 'sweep': 'every truncation length and every offset x {0,1,0x7F,0x80,0xFF} of %d base files; plus, per parameter record and type byte, 20 dimension tables whose products overflow 16/32/64 bits, wrap to a small 32-bit number, or hold a 0 behind large entries' % (3 if tier == 'thorough' else 2)})
     finally:
         shutil.rmtree(d, ignore_errors=True)
 
 @reg('C13')
 def c13(tier):
-    return V.generic_pbt('C13', tier, n_quick=30000, n_thorough=1000000, floor=500, assumptions=API_ASSUME +
+    return V.generic_pbt('C13', tier, n_quick=80000, n_thorough=1000000, floor=500, assumptions=API_ASSUME +
                          ['monitors: AddressSanitizer (bounds, use-after-free, alloc/dealloc mismatch) and _GLIBCXX_ASSERTIONS (container indexing); LeakSanitizer and UBSan arithmetic are not part of the verdict',
                           'the checks of C01-C12, C14, C16, C17 run under the same monitors and report a memory error as a violation of the property being run'])
 
@@ -272,7 +290,7 @@ def c17(tier):
     import shutil
     d, paths = c17_cases(tier)
     try:
-        return V.generic_pbt('C17', tier, n_quick=1500, n_thorough=20000, floor=40, extra_cases=paths, shards_quick=16,
+        return V.generic_pbt('C17', tier, n_quick=4000, n_thorough=20000, floor=40, extra_cases=paths, shards_quick=16,
                              assumptions=['"within capacity" is decided on the snapshot of the object by rules taken from the C3D format (one-byte lengths and dimensions, 16-bit integers and record offsets, 255 parameter blocks, POINT:FRAMES 16-bit signed)',
                                           'beyond a limit either a refusal by write() or a faithful round trip is accepted'],
                              extra_cov={'enumerated_cases': len(paths), 'limits': sorted(C17_LIMITS) + ['last-frame-65535']})
@@ -471,6 +489,9 @@ def c15(tier):
         'medium': 'limit 6 20\nlimit 7 6\nprate 8\narate 3\nlimit 8 12\nparam 4 1 2 0 40 9 3 0\n',
         'large': 'limit 6 255\nprate 8\nlimit 8 70\n',
         'empty': 'obs\n',
+        # POINT:FRAMES edited by hand (fewer / more than the stored frames): the header then disagrees with the data that is written
+        'frames-parameter-smaller': 'declp 1 0\ndeclp 2 0\ndeclp 3 0\nprate 8\nlimit 8 40\npframes -10\n',
+        'frames-parameter-larger': 'declp 1 0\ndecla 1 0\nprate 8\narate 1\nlimit 8 6\npframes 4\n',
     }
     paths = []
     for n, body in objs.items():
@@ -549,9 +570,10 @@ def c18(tier):
         with open(lst, 'w') as f:
             f.write('\n'.join(paths[i::nl]) + '\n')
         lists.append(lst)
-    total = 0; overlapping = 0; threads = 0; samples = []
+    total = 0; overlapping = 0; threads = 0; samples = []; styles = {}
     for lst, rc, out, stats in _c18_run_lists(ts['mt'], lists, tier):
         if stats:
+            for k2, v2 in stats.get('path_styles', {}).items(): styles[k2] = styles.get(k2, 0) + v2
             total += stats['repetitions']; overlapping += stats['overlapping']; threads += stats['threads_run']; samples += stats['samples'][:1]
         running = [l.split(' ', 1)[1] for l in out.splitlines() if l.startswith('RUNNING ')]
         if rc == 66 or 'ThreadSanitizer' in out:
@@ -574,8 +596,8 @@ def c18(tier):
                 res.broken = 'mt runner failed: ' + tail
     shutil.rmtree(cdir, ignore_errors=True)
     cov = {'evaluations': total, 'distinct_nontrivial': overlapping,
-           'rule': 'one evaluation = one repetition: k in {2,4,8,16} threads, each running its own generated script (own object, own scratch dir) behind a barrier with generated yields/spins/sleeps before operations; non-trivial = at least two threads were inside a load or a save at overlapping times (measured, statistic only); distinct by (scripts, schedule seed)',
-           'samples': samples[:3] or ['(no overlapping repetition sampled)'], 'threads_run': threads,
+           'rule': 'one evaluation = one repetition: k in {2,4,8,16} threads, each running its own generated script (own object; files in its own directory, or all threads in ONE directory with names that differ only in the extension, or extension-less names in a directory with a dot in its name: path_styles) behind a barrier with generated yields/spins/sleeps before operations; non-trivial = at least two threads were inside a load or a save at overlapping times (measured, statistic only); distinct by (scripts, schedule seed)',
+           'samples': samples[:3] or ['(no overlapping repetition sampled)'], 'threads_run': threads, 'path_styles': styles,
            'engine': 'clang ThreadSanitizer build of /repo + harness (halt_on_error), sequential differential on traces (snapshot digest after every operation, digest of the saved bytes)'}
     return V.finish('C18', tier, 'exploration', res, cov, t0, floor=20,
                     assumptions=['schedules are sampled (perturbed), not enumerated: a race that needs a rare interleaving can be missed',
